@@ -1254,8 +1254,8 @@ let do_poll s f w =
                     let sent' = N.add sent (N.of_nat j) in
                     if is_nil rest'
                     then ((put_f f { fh = fr.fh; fk = (FSendB ([], sent',
-                            total)); fpend = None } s1), (RReady (RBatchOk
-                           total)))
+                            total)); fpend = None } (unreg_send f s1)),
+                           (RReady (RBatchOk total)))
                     else let s2 =
                            set_sq s1 (app (unreg_send f s1).sq ((f, w) :: []))
                          in
